@@ -28,6 +28,9 @@ type purityItem struct {
 	// Aligned makes every goroutine walk the operations in the same order (default: goroutine g
 	// starts at operation g)
 	Aligned bool `json:"aligned"`
+	// Rot rotates the order of the Generate option sets (the names keep the original indices): which
+	// option set a process sees FIRST must not matter to any later call
+	Rot int `json:"rot"`
 }
 
 type callRec struct {
@@ -72,6 +75,10 @@ func opPurity(_ rfItem, raw json.RawMessage, e *core.Emitter) any {
 			err := f.Generate(&b, gs.toBebop())
 			return name, b.Bytes(), err
 		})
+	}
+	if n := len(ops); n > 1 && it.Rot%n != 0 {
+		k := it.Rot % n
+		ops = append(append([]func() (string, []byte, error){}, ops[k:]...), ops[:k]...)
 	}
 	ops = append(ops, func() (string, []byte, error) { return "Validate", nil, f.Validate() })
 	ops = append(ops, func() (string, []byte, error) {
